@@ -100,6 +100,10 @@ def judge(T, name, ops, line, s, decoded):
                 if o.startswith("sc:") and r != "raise:ValueErr":
                     T.fail("spec", pub, "raise:ValueErr", r, {"site": "send_close", "cls": "bad-status-accepted"})
                     return
+                if o.startswith("cl:") and s.conn_before[i] and r != "raise:ValueErr":
+                    T.fail("spec", pub, "raise:ValueErr", r, {"site": "close", "cls": "bad-status-accepted"},
+                           what="close() with an out-of-range status on a connected object must refuse (ValueError), not close silently")
+                    return
     if closed_at is not None:
         if s.ws.sock is not None or s.ws.connected:
             T.fail("spec", pub, "sock released and connected False at the end", f"sock={s.ws.sock} connected={s.ws.connected}",
